@@ -181,7 +181,11 @@ def finish(pid, level, coverage, violations, assumptions=None, inconclusive=None
             hist[v["class"]] = hist.get(v["class"], 0) + 1
         print("  violation classes: " + ", ".join("%s x%d" % kv for kv in sorted(hist.items())))
         os.makedirs(REPLAYS, exist_ok=True)
-        for v in new[:20]:
+        firsts, rest, seen_cls = [], [], set()
+        for v in new:    # one representative of every class first, so that no class goes unreported
+            (rest if v["class"] in seen_cls else firsts).append(v)
+            seen_cls.add(v["class"])
+        for v in (firsts + rest)[:max(20, len(firsts))]:
             h = hashlib.sha1(json.dumps(v, sort_keys=True).encode()).hexdigest()[:10]
             path = os.path.join(REPLAYS, "%s-%s.json" % (pid, h))
             with open(path, "w") as f:
